@@ -804,11 +804,11 @@ func check(cs *cas) (res result) {
 // two terminals in every order, + versus *), in one body, so that a wrongly shared extracted
 // nonterminal changes the language: `L1 | tc L2` and `L1 tc L2` for every ordered pair.
 func twins() []*expr {
-	seps := [][]string{{"a"}, {"b"}, {"c"}, {"a", "b"}, {"b", "a"}, {"b", "c"}, {"c", "b"}, {"b", "b"}}
+	// separators of 1..3 terminals; (a b) / (a b c) and (b c) / (b c a) are proper prefixes of each other
+	seps := [][]string{{"a"}, {"b"}, {"c"}, {"a", "b"}, {"b", "a"}, {"b", "c"}, {"c", "b"}, {"b", "b"}, {"a", "b", "c"}, {"b", "c", "a"}}
 	elems := []func() *expr{
 		func() *expr { return mk("a") },
 		func() *expr { return mk("X") },
-		func() *expr { return mk("seq", mk("a"), mk("b")) },
 		func() *expr { return mk("opt", mk("a")) },
 	}
 	var out []*expr
@@ -900,7 +900,7 @@ func run(c *core.Ctx) {
 		go func() { time.Sleep(40 * time.Second); pprof.StopCPUProfile(); os.Exit(0) }()
 	}
 	c.Rule("bodies enumerated by (depth, leaves), simplest first, over 6 leaf kinds {ta, tb, X, set(ta|tb), set(~ta), (?= X)}, 5 unary and 2 binary " +
-		"operators: every expression of depth<=2 and of depth 3 with one leaf; first-nonterminal = every body of depth<=1, depth 2 with one leaf and every 8th (thorough: every) body of depth 2 with two leaves, in 13 frames: the first nonterminal named zz / input / Aa / S (generated names sort before, around, after it) x {S: e | tb S, S: S e | tb, S: e | tc Z with Z: tb S | ..., plain}; twins = every ordered pair of two lists over the same element (4 elements x 18 list forms with separators of 1 and 2 terminals in all orders, + and *) combined as L1 | tc L2 and L1 tc L2; every depth-3 operator shape with 2..4 leaves under a fixed list of leaf " +
+		"operators: every expression of depth<=2 and of depth 3 with one leaf; first-nonterminal = every body of depth<=1, depth 2 with one leaf and every 8th (thorough: every) body of depth 2 with two leaves, in 13 frames: the first nonterminal named zz / input / Aa / S (generated names sort before, around, after it) x {S: e | tb S, S: S e | tb, S: e | tc Z with Z: tb S | ..., plain}; twins = every ordered pair of two lists over the same element (3 elements ta, X, ta? x 22 list forms with separators of 1..3 terminals, all orders of two terminals and prefixes of each other, + and *) combined as L1 | tc L2 and L1 tc L2; every depth-3 operator shape with 2..4 leaves under a fixed list of leaf " +
 		"labelings (thorough: all 36 labelings for 2 leaves, then all 216 labelings for 3 leaves and 24 more for 4 leaves one labeling per level " +
 		"until 18 minutes have passed). Each body goes " +
 		"through compiler.Compile (tm layer) and through syntax.Expand on a hand-built model with subsets of its lists right-recursive (model layer). " +
